@@ -293,6 +293,8 @@ def add_visitors(pack, active_known):
 
     # ---- visit_Expr: R1
     c = visitor("visit_Expr", ast.Expr)
+    c.replay(lambda m, ctx, ob: R1_REPLAY)
+    c.replay_without_model = True
     c.ensures("R1: a statement that is a bare constant or name is dropped, every other expression statement is returned unchanged",
               lambda a: z3.If(z3.Or(isa(a.eng, fld(a.pre.st, a.node, "value"), ast.Constant), isa(a.eng, fld(a.pre.st, a.node, "value"), ast.Name)), V.is_none(a.result), a.result == a.node))
     c.modifies()
@@ -554,6 +556,45 @@ for label, wrap in (("if", lambda dead: ast.If(test=ast.Name(id="t", ctx=ast.Loa
         print("a `global w` inside dead code of an %s made the pass drop the live `global w`: module global w is %r after f(False), expected 2" % (label, got))
         bad = True
 print("REPRODUCED" if bad else "not reproduced")
+'''
+
+
+R1_REPLAY = r'''
+import ast
+from basilisp.lang.compiler import optimizer
+src = """
+log = []
+class T:
+    @property
+    def p(self):
+        log.append("p")
+        return 1
+o = T()
+def f():
+    log.append("a")
+    o.p
+    o.p.real
+    5
+    o
+    log.append("b")
+    len(log)
+f()
+try:
+    o.nope
+    log.append("no error")
+except AttributeError:
+    log.append("AttributeError")
+"""
+out = []
+for optimise in (False, True):
+    tree = ast.parse(src)
+    if optimise:
+        tree = ast.fix_missing_locations(optimizer.PythonASTOptimizer().visit(tree))
+    env = {}
+    exec(compile(tree, "<c15-r1>", "exec"), env)
+    out.append(env["log"])
+print("effects of expression statements: unoptimised", out[0], " optimised", out[1])
+print("REPRODUCED" if out[0] != out[1] else "not reproduced")
 '''
 
 
